@@ -52,6 +52,21 @@ func checkIndexFileCodec(p *core.Prog, r *core.Report, rule string) {
 			return
 		}
 		// receiver: Indices[k] looked up with the range key; argument: the range value of the same Next
+		vx0, okv := c.Call.Args[1].(*ssa.Extract)
+		if nb, isNew := c.Call.Args[0].(*ssa.Call); isNew && okv && vx0.Index == 2 {
+			// the other form: bitmap := New(); Indices[key] = bitmap; bitmap.FromUnsafeBytes(bytes)
+			if cn := core.CommonCallee(nb.Common()); cn != nil && cn.Name() == "New" {
+				core.Instrs(ld, func(x ssa.Instruction) {
+					if mu, ok := x.(*ssa.MapUpdate); ok && mu.Value == ssa.Value(nb) {
+						if kx, ok := mu.Key.(*ssa.Extract); ok && kx.Tuple == vx0.Tuple && kx.Index == 1 {
+							okR = true
+						}
+					}
+				})
+				okErr = core.ErrorTested(c)
+			}
+			return
+		}
 		lk, ok := c.Call.Args[0].(*ssa.Lookup)
 		if !ok {
 			return
